@@ -55,6 +55,14 @@ Fixpoint bind {A B} (p : prog A) (f : A -> prog B) : prog B :=
   | Do r k => Do r (fun x => bind (k x) f)
   end.
 
+(* an error of p becomes a value: the code continues after a failed call *)
+Fixpoint catch {A} (p : prog A) : prog (A + Z) :=
+  match p with
+  | Ret a => Ret (inl a)
+  | Fail e => Ret (inr e)
+  | Do r k => Do r (fun x => catch (k x))
+  end.
+
 (* ---- the bucket ---- *)
 Definition omap := list (name * obj).
 
@@ -131,7 +139,8 @@ Inductive outcome := OOk | OErr | OGone (* well-formed NoSuchKey even if present
 
 (* a fault: the [f_occ]-th request (from 0) of kind [f_kind] (0 LIST, 1 GET, 2 PUT, 3 DELETE)
    on prefix [f_pfx], to the object [f_name] (None = any object), gets outcome [f_out] *)
-Record fault := { f_kind : Z; f_pfx : pfx; f_name : option name; f_occ : Z; f_out : outcome }.
+Record fault := { f_kind : Z; f_pfx : pfx; f_name : option name; f_occ : Z; f_out : outcome;
+                  f_sticky : bool   (* also every later matching request *) }.
 
 Definition pfx_eqb (a b : pfx) : bool :=
   match a, b with PNode, PNode | PCur, PCur | PMerged, PMerged => true | _, _ => false end.
@@ -153,7 +162,8 @@ Definition fault_matches (f : fault) (r : req) : bool :=
 (* outcome for request r given the requests issued so far (newest first) *)
 Definition plan_outcome (plan : list fault) (tr : list (req * bool)) (r : req) : outcome :=
   match find (fun f => fault_matches f r &&
-                       (f_occ f =? Z.of_nat (length (filter (fun e => fault_matches f (fst e)) tr)))) plan with
+                       (let n := Z.of_nat (length (filter (fun e => fault_matches f (fst e)) tr)) in
+                        (f_occ f =? n) || (f_sticky f && (f_occ f <? n)))) plan with
   | Some f => f_out f
   | None => OOk
   end.
